@@ -42,6 +42,10 @@ type StoreH struct {
 	St   *gkvlite.Store
 	File *memfile.File // nil: memory-only
 	RO   bool
+	// a private (unregistered) collection of St, presented to the model as a
+	// store of its own with the single collection PrivName
+	Priv     *gkvlite.Collection
+	PrivName string
 }
 
 // RefTracker keeps the application-side item reference counts (C15).
@@ -94,6 +98,7 @@ type World struct {
 	cbMask    int
 	slabLike  bool
 	refs      *RefTracker
+	forcePeek bool
 	lastRoot  []byte   // bytes of the most recent root record (for adversarial values)
 	roots     [][]byte // every root record seen so far (older ones make the nastiest fragments)
 	nEvents   int
@@ -573,7 +578,12 @@ func (w *World) trueDepths(h *StoreH, c *gkvlite.Collection) map[string]int {
 	return m
 }
 
-func (w *World) collNames(h *StoreH) []string { return h.St.GetCollectionNames() }
+func (w *World) collNames(h *StoreH) []string {
+	if h.Priv != nil {
+		return []string{h.PrivName}
+	}
+	return h.St.GetCollectionNames()
+}
 
 // minTarget returns a target that is not above any key of the collection.
 func (w *World) lowTarget(name string) []byte {
@@ -588,6 +598,9 @@ func (w *World) lowTarget(name string) []byte {
 func (w *World) Obs(h *StoreH, mode string, ctx ...string) bool {
 	if h.File != nil {
 		h.File.Drain()
+	}
+	if w.forcePeek {
+		mode = "peek" // lazy-loading profiles: an observation must not fetch anything
 	}
 	ev := Ev{"e": "Obs", "s": h.ID, "mode": mode}
 	if len(ctx) > 0 && ctx[0] != "" {
@@ -604,7 +617,7 @@ func (w *World) Obs(h *StoreH, mode string, ctx ...string) bool {
 		ev["names"] = ids
 		colls := []Ev{}
 		for _, name := range names {
-			c := h.St.GetCollection(name)
+			c := w.coll(h, name)
 			ce := Ev{"c": w.U.NameID(name), "err": false, "agg": mode == "peek", "items": []Ev{}, "n": 0, "b": 0}
 			if c == nil {
 				ce["err"] = true
@@ -819,6 +832,19 @@ func (w *World) handOut(h *StoreH, c *gkvlite.Collection, i *gkvlite.Item) {
 		w.refs.mu.Unlock()
 	}
 	h.St.ItemDecRef(c, i)
+}
+
+// lent checks an item a visitor callback is given (it is the library's own
+// reference that must be positive while the callback runs).
+func (w *World) lent(i *gkvlite.Item) {
+	if i == nil || w.cbMask&(cbAddRef|cbDecRef) != cbAddRef|cbDecRef {
+		return
+	}
+	if w.refs.get(i) <= 0 {
+		w.refs.mu.Lock()
+		w.refs.handBad++
+		w.refs.mu.Unlock()
+	}
 }
 
 func (w *World) flushOut() { w.out.Flush() }
